@@ -9,7 +9,7 @@ import shutil
 import tempfile
 
 # fragment alphabet fixed by DESIGN.md (C04 / C20)
-FRAGMENTS = ["x", "é", "\n", "<", ">", "<b>", "</b>", "<info>", "</info>", "</>", "<fg=red>", "\\"]
+FRAGMENTS = ["x", "é", "\n", "<", ">", "<b>", "</b>", "<info>", "</info>", "</>", "<fg=red>", "\\", "\0"]
 
 
 def messages(max_fragments):
